@@ -98,6 +98,13 @@ func (s *Spec) respPlanFor(r *simfw.RNG, op string, mk string) respPlan {
 			return respPlan{200, [][2]string{{"Content-Type", "application/xml"}}, "<a>" + mk + "</a>", "invalid"}
 		}
 	}
+	if r.Chance(1, 14) {
+		// 101 Switching Protocols is a final status, unlike the other 1xx codes
+		if d.Default {
+			return respPlan{101, nil, "", "invalid"} // the default entry wants a JSON body
+		}
+		return respPlan{101, nil, "", "valid"}
+	}
 	switch r.Intn(12) {
 	case 0, 1, 2:
 		return respPlan{200, append([][2]string{jsonCT}, rate...), okBody, "valid"}
@@ -501,7 +508,10 @@ func Gen(seed uint64, tier string) *Spec {
 		s.Router = "legacy"
 		s.Encoder = simfw.Pick(r, []string{"default", "validation", "record"})
 	}
-	s.Auth = simfw.Pick(r, []string{"ok", "ok", "read_ok", "read_ok", "fail", "read_fail"})
+	s.Auth = simfw.Pick(r, []string{"ok", "ok", "read_ok", "read_ok", "fail", "read_fail", "none"})
+	if s.Kind != "validator" && s.Auth == "none" {
+		s.Auth = "ok" // the older handler installs a no-op callback itself
+	}
 	if r.Chance(1, 3) {
 		s.MapSeed = r.Uint64() | 1
 	}
